@@ -1845,6 +1845,8 @@ static void* c13_task_main(void* arg) {
   BootCfg cfg;
   cfg.heap = t->heap; cfg.heap_max = t->heap_max; cfg.imports = t->imports;
   c13_switch("before-create");
+  bool host_fd_open[3];
+  for (int fd = 0; fd <= 2; ++fd) host_fd_open[fd] = fcntl(fd, F_GETFD) != -1;
   std::string err;
   sexp ctx = nullptr, env = nullptr;
   // boot step by step so that switches can land between create / standard env / each import
@@ -1918,7 +1920,7 @@ static void* c13_task_main(void* arg) {
     t->ctx = nullptr;
     // the host's own streams were lent to the context with no_close = 1: whatever the context did with them, they are still the host's
     for (int fd = 0; fd <= 2; ++fd)
-      if (fcntl(fd, F_GETFD) == -1) {
+      if (host_fd_open[fd] && fcntl(fd, F_GETFD) == -1) {
         char msg[160];
         snprintf(msg, sizeof msg, "file descriptor %d of the host process is closed after task %d destroyed its context", fd, t->id);
         W.violate("embed:host-stream-closed", msg);
